@@ -143,7 +143,7 @@ int main(int argc, char** argv)
         // PK seeds the pool with a parent+child pair in one step, so that "pair | prioritise +1000 | package RBF at the
         // Rule-4 bound" fits in depth 3: only against a conflict at least as large as the package can a package RBF
         // inside the window [evicted modified fees, + incremental fee) also improve the diagram
-        o.classes = {"N", "N3", "PK", "C", "P", "R", "RB", "RS", "SB", "PR"};
+        o.classes = {"N", "N3", "PK", "C", "P", "R", "RB", "RS", "RD", "SB", "PR"};
         o.pk_parent = "l"; o.pk_child = "k";
         o.guarded = true;
         o.fees = "mh"; o.fees3 = "h";
